@@ -207,7 +207,7 @@ def gen_cfg(seed, idx):
             "warm": rng.random() < 0.5, "storage": rng.random() < 0.5, "api": rng.choice(["get_array", "get_array", "get_df", "make"]),
             "bad": bad, "ignore": bool(bad) and rng.random() < 0.6, "slow_infer": rng.choice([0.0, 0.0, 0.001, 0.002]),
             # everything stored beforehand with chunk files of realistic size: the parallel call only loads
-            "prestored_big": rng.random() < 0.12,
+            "prestored_big": rng.random() < 0.2,
             "mode": rng.choice(["switch", "switch", "yield", "default"]), "mode_seed": rng.randint(0, 10 ** 6)}
 
 
@@ -224,7 +224,7 @@ def run_cfg(cfg):
 
     d = hrun.mktemp("c15-") if cfg["storage"] else None
     try:
-        big = 4000 if cfg.get("prestored_big") and d else 0
+        big = 60000 if cfg.get("prestored_big") and d else 0
         st = context(d, cfg["bad"], cfg.get("slow_infer", 0.0), big)
         if big:
             pre = context(d, cfg["bad"], 0.0, big)
@@ -264,6 +264,10 @@ def run_cfg(cfg):
                     res = call()
             else:
                 res = call()
+                if big and cfg["api"] != "make":
+                    # pure loading: repeat it, the decompression of the runs' chunk files overlaps in time
+                    for _ in range(3):
+                        res = call()
         except Exception as e:  # noqa: BLE001
             exc = e
         finally:
